@@ -364,6 +364,81 @@ def opCompat (j : Json) : R Json := do
   pure (Json.mkObj [("cmpEt", cmpJson (cmpEventType et et2)), ("cmpOts", Json.arr cmpOts.toArray),
                     ("events", Json.arr rows.toArray)])
 
+open Edxml.Mut in
+def mutView (x : XmlEv) : Json :=
+  let names := canonS (x.props.map (·.1))
+  let props := names.filterMap fun n =>
+    let vs := x.objects n
+    if vs.isEmpty then none else some (jPair n (jStrs vs))
+  let anames := canonS (x.atts.map (·.1))
+  let atts := anames.filterMap fun n =>
+    let ids := canonS ((x.atts.filter (·.1 == n)).map (·.2.1))
+    let items := ids.filterMap fun i => (x.attValue n i).map fun v => jPair i v
+    if items.isEmpty then none else some (jPair n (Json.arr items.toArray))
+  let fkeys := canonS (x.foreign.map (·.1))
+  let foreign := fkeys.filterMap fun k => (x.foreignValue k).map fun v => jPair k v
+  Json.mkObj [("type", x.type), ("source", x.source), ("props", Json.arr props.toArray),
+    ("atts", Json.arr atts.toArray), ("parents", jStrs x.parentSet), ("foreign", Json.arr foreign.toArray)]
+
+def sha1Hex (v : String) : String := hexOfBytes (sha1 (utf8 v))
+
+open Edxml.Mut in
+def mutCmd (j : Json) : R Cmd := do
+  let on ← fldNat j "on"
+  let items (k : String) : R (List (String × String)) := do (← fldArr j k).mapM (pairOf str str)
+  match ← fldStr j "k" with
+  | "set" | "set1" => pure (.op on (.setProp (← fldStr j "p") (← fldStrs j "vs")))
+  | "del" => pure (.op on (.delProp (← fldStr j "p")))
+  | "add" => pure (.op on (.addObj (← fldStr j "p") (← fldStr j "v")))
+  | "remove" | "discard" | "pop" => pure (.op on (.removeObj (← fldStr j "p") (← fldStr j "v")))
+  | "update" | "iadd" => pure (.op on (.updateObjs (← fldStr j "p") (← fldStrs j "vs")))
+  | "clear" => pure (.op on (.clearObjs (← fldStr j "p")))
+  | "set_properties" | "props_setter" =>
+    pure (.op on (.setProperties (← (← fldArr j "props").mapM (pairOf str strs))))
+  | "set_attachment_dict" => pure (.op on (.setAttachment (← fldStr j "a") (← items "items")))
+  | "set_attachment_str" => do
+    let v ← fldStr j "v"
+    pure (.op on (.setAttachment (← fldStr j "a") [(sha1Hex v, v)]))
+  | "set_attachment_list" => do
+    let vs ← fldStrs j "vs"
+    pure (.op on (.setAttachment (← fldStr j "a") (vs.map fun v => (sha1Hex v, v))))
+  | "set_attachment_none" | "att_del" => pure (.op on (.delAttachment (← fldStr j "a")))
+  | "att_setitem" => pure (.op on (.setAttValue (← fldStr j "a") (← fldStr j "i") (← fldStr j "v")))
+  | "att_delitem" => pure (.op on (.delAttValue (← fldStr j "a") (← fldStr j "i")))
+  | "atts_setter" => pure (.op on (.setAttachments (← (← fldArr j "atts").mapM
+      (pairOf str fun x => do (← arr x).mapM (pairOf str str)))))
+  | "set_parents" => pure (.op on (.setParents (← fldStrs j "ps")))
+  | "add_parents" => pure (.op on (.addParents (← fldStrs j "ps")))
+  | "set_type" => pure (.op on (.setType (← fldStr j "v")))
+  | "set_source" => pure (.op on (.setSource (← fldStr j "v")))
+  | "set_foreign" => pure (.op on (.setForeign (← items "kv")))
+  | "copy" => pure (.copy on)
+  | "read" => pure (.op on .read)
+  | x => throw s!"unknown event operation {x}"
+
+open Edxml.Mut in
+def opEvOps (j : Json) : R Json := do
+  let e ← event (← fld j "initial")
+  let props0 := e.props.flatMap (fun pv => (dedup pv.2).map fun v => (pv.1, v))
+  let atts0 := e.atts.flatMap fun a => a.2.map fun iv => (a.1, iv.1, iv.2)
+  let x0 : XmlEv := ⟨e.type, e.source, dedup e.parents, e.foreign, props0, atts0⟩
+  let cmds ← (← fldArr j "ops").mapM mutCmd
+  let (_, steps) := cmds.foldl (fun (acc : List XmlEv × List Json) c =>
+    let xs := runCmd acc.1 c
+    let objs := xs.map fun x => Json.mkObj [("abs", mutView x), ("xml", mutView x)]
+    let n := xs.length
+    let pairs := (List.range n).flatMap fun i => ((List.range n).filter (· > i)).map fun k => (i, k)
+    let eqs := pairs.filterMap fun (i, k) => match xs[i]?, xs[k]? with
+      | some a, some b =>
+        let names := (a.props ++ b.props).map (·.1)
+        let anames := (a.atts ++ b.atts).map (·.1)
+        let ids := (a.atts ++ b.atts).map (·.2.1)
+        let same := sameEvent names anames ids a b
+        some (Json.arr #[i, k, same, !same])
+      | _, _ => none
+    (xs, acc.2 ++ [Json.mkObj [("objects", Json.arr objs.toArray), ("eq", Json.arr eqs.toArray)]])) ([x0], [])
+  pure (Json.mkObj [("steps", Json.arr steps.toArray)])
+
 def dispatch (j : Json) : R Json := do
   match ← fldStr j "op" with
   | "ping" => pure (Json.mkObj [("pong", true)])
@@ -380,6 +455,7 @@ def dispatch (j : Json) : R Json := do
   | "gate" => opGate j
   | "norm" => opNorm j
   | "compat" => opCompat j
+  | "evops" => opEvOps j
   | x => throw s!"unknown op {x}"
 
 partial def loop (inp out : IO.FS.Stream) : IO Unit := do
